@@ -53,8 +53,8 @@ R5    (3) accumulator terms `acc + x` / `x + acc` (operand order), slice terms `
       Lemmas: slice-drop `x[:len(x)-n]` is x without its last n bytes for 0 <= n <= len(x); neg-zero `x[:-n]` equals that
       only for n > 0 because `-0 == 0` and `x[:0] == b""`; or-none `x[:-n or None]` equals it for all n >= 0 because
       `-0 or None` is None; filler `b"c" * n` and `bytes(n)` are n bytes long for an int n >= 0.
-R6    (3) terms `key + xor(acc, key)` / `xor(acc[k:], acc[:k])` compared structurally, the random key is one fresh symbol
-      per evaluation (two draws are two symbols); (1) `utils.xor`/`utils.pack` resolved incl. functools.partial keywords;
+R6    (3) terms `key + xor(acc, key)` / `xor(acc[k:], acc[:k])` compared structurally on the paths that rewrite the payload
+      (pass-through paths: R10), the random key is one fresh symbol per evaluation (two draws are two symbols); (1) `utils.xor`/`utils.pack` resolved incl. functools.partial keywords;
       (6) key length from constants.  Lemma key-length: `n.to_bytes(k, ..)`, `os.urandom(k)`, `utils.pack(.., size=k)` are k
       bytes long, `struct.pack(fmt, ..)` is `struct.calcsize(fmt)` bytes long (fmt a constant of the analysed code).
 R7    (5) one case per build selector of the reference vocabulary (output, id, metadata) with the payload symbolic; (3)
@@ -110,16 +110,38 @@ R9    a termination location is read back exactly.  (5) one case per placement o
       so payloads containing the searched bytes and payloads lacking them both exist and for one of the two kinds the part
       cut out is not the payload.  Present -> VIOLATED (a fresh construct, distinct from the known finding above); read not
       followed -> undecided.
+R10   no pass-through: a length-changing step rewrites the payload on every path a payload of its domain can take.  (5) one
+      case per step of the reference inverse-pair table (the four codecs and mask) on either side; (3) the paths on which the
+      final accumulator term is the accumulator symbol itself (the payload is handed on unchanged: a guard around the step,
+      a conditional expression, an early `continue`); (2) the facts recorded on such a path during the iteration; (4) each
+      fact about the payload is translated into the interval domain over L = len(payload): truthiness of `acc` / `acc[k:]`
+      (non-empty <=> length > 0, len(acc[k:]) == max(L - k, 0)), (in)equality of `acc` / `acc[k:]` with a bytes constant,
+      comparisons / truthiness of integer expressions linear in one `len(acc)` / `len(acc[k:])` (polynomial normal form,
+      solved over the integers); the admitted set is an interval minus finitely many points (`!=`).  It is intersected with
+      the step's domain: transform mask L >= 0, transform codecs L >= 1, recover mask L >= 4 (a blob that has its key),
+      recover codecs L >= 1 restricted to valid encodings.  Non-empty -> VIOLATED; empty -> discharged (the step is skipped
+      only where it is the identity: the empty payload of a codec, or a malformed blob shorter than the key); a fact about
+      the payload that is not translated (modular tests, content tests, type tests), a path that depends on the step
+      argument, or a bounded set of decoder lengths containing neither 2 nor 4 -> undecided.  No length is enumerated.
+      Lemmas length-law: len(base64(x)) = 4*ceil(len(x)/3) (less at most two stripped '='), len(netbios(x)) = 2*len(x),
+      len(mask(x)) = len(x) + 4, so encoder output and input differ in length for every x in the domain, decoder output
+      and input likewise - a value cannot equal a value of another length; decoder-lengths: encodings of every multiple of
+      4 characters exist for all four codecs, and 2 and 4 characters are valid encodings for all four (netbios of 1 / 2
+      bytes, padding-stripped base64 of 1 / 3 bytes), hence an unbounded admitted set or one containing 2 or 4 contains a
+      valid encoding.  R2 and R6 judge a step on its rewriting paths only and leave pass-through paths to this rule; R6
+      additionally accepts a recover path that only blobs of at most 4 bytes take and that yields the empty payload
+      (`b""` or `acc[k:]`, k >= 4: xor(b"", key) == b"").
 """
 
 from __future__ import annotations
 
 import ast
 import copy
+import math
 from typing import Dict, List, Optional, Tuple
 
 from csverif import tables
-from csverif.absint import sympoly
+from csverif.absint import SymPoly, sympoly
 from csverif.astutil import bind_args, const_eval, dotted, names_in, NotConst, param_defaults, params, src, strip_cast
 
 
@@ -1367,12 +1389,16 @@ def run(ctx):
         "whole location for the payload, nor cut the payload out by searching the location's bytes (partition / split / strip / "
         "find ...: the payload is an arbitrary byte string).  Dispatch through constant "
         "lookup tables of callables (module / class level dict displays) is followed by folding the lookup for the literal "
-        "step name and binding the call's arguments into the entry (lambda, function reference, one-expression helper)."
+        "step name and binding the call's arguments into the entry (lambda, function reference, one-expression helper).  "
+        "Finally no length-changing step (the four codecs, mask) may hand some payloads on unchanged: the payload lengths a "
+        "pass-through path admits are computed from its path facts in the interval domain and must miss the step's domain "
+        "(e.g. recover mask must turn the 4 bare key bytes of an empty payload into b'', not keep them)."
     )
     rep.not_decided = ["round-trip equality for all programs and payloads (only the per-step structural necessary conditions are decided)",
                        "correctness of the codecs themselves (base64 module, utils.netbios_*, utils.xor bodies)",
                        "whether a recover that takes only a part of a termination location (a slice of http.uri ...) removes exactly what transform kept there "
                        "(recover is not given the initial request): R9 is undecided on such shapes",
+                       "pass-through paths guarded by something other than a linear length condition on the payload (modular / content / type tests, the step argument): R10 is undecided there",
                        "programs with two placements into the same location (two uri_append / print steps): only one placement step is analysed at a time",
                        "recover keeping the recovered blocks in something other than locals or constant-key entries of a local container (attributes set by name, "
                        "computed keys): R7 `build selectors` is undecided there",
@@ -1399,6 +1425,10 @@ def run(ctx):
         "lemma content-cut (R9): bytes.partition/rpartition/split/rsplit/splitlines/strip/lstrip/rstrip/removeprefix/removesuffix/replace/translate/find/rfind/index/rindex/expandtabs "
         "depend on where or whether some bytes occur in the receiver; the placed payload ranges over all byte strings",
         "lemma key-length: n.to_bytes(k, ..), os.urandom(k), utils.pack(.., size=k) have length k; struct.pack(fmt, ..) has length struct.calcsize(fmt)",
+        "lemmas length-law / decoder-lengths (R10): base64 / base64url output has 4*ceil(n/3) characters (minus at most two stripped '='), netbios output 2n, "
+        "mask output n + 4, so for n >= 1 (mask: n >= 0) an encoder's output differs in length from its input and, for a valid encoding (mask: a blob of >= 4 bytes), "
+        "so does the decoder's; valid encodings of 2, of 4 and of every multiple of 4 characters exist for all four codecs; len(x[k:]) == max(len(x) - k, 0) for a constant k >= 0; "
+        "a bytes value is true iff its length is > 0; equal byte strings have equal lengths; utils.xor(b'', key) == b''",
     ]
     T = ctx.repo.func("c2.HttpDataTransform.transform")
     R = ctx.repo.func("c2.HttpDataTransform.recover")
@@ -1443,6 +1473,7 @@ def run(ctx):
     r7(ctx, T, R, tt, rt, _ARG, _ARG)
     r8(ctx, T, tt)
     r9(ctx, T, R, tt, rt, _ARG, _ARG)
+    r10(ctx, T, R, tt, rt, _ARG, _ARG)
 
 
 def _fields(tt: _Side) -> dict:
@@ -1565,6 +1596,9 @@ def r2(ctx, T, R, tt, rt):
         if tv is None or rv is None:
             continue  # not handled on one side: R1
         text = f"pair {step}"
+        # a path that passes the payload on unchanged is R10's subject; the pair is judged on the paths that rewrite it
+        tv = [x for x in tv if not _is(x[0], tt.acc)] or tv
+        rv = [x for x in rv if not _is(x[0], rt.acc)] or rv
         if topq or ropq or len(tv) != 1 or len(rv) != 1:
             ctx.undecided("R2", "AGREE", T, text, f"no single accumulator value per side (transform {[s for s in map(lambda x: src(x[0]), tv)]}, recover {[src(x[0]) for x in rv]}; not modelled: {topq + ropq})")
             continue
@@ -2091,10 +2125,14 @@ def r6(ctx, T, R, tt, rt):
     if _opaque(tps) or _opaque(rps):
         unknown.append(f"not modelled: {_opaque(tps) + _opaque(rps)}")
     size = split = None
+    judged = {"transform": 0, "recover": 0}
     for p in tps:
         if p.opaque:
             continue  # not fully modelled: reported as undecided above, nothing is concluded from it
         v = p.env.get(tt.acc)
+        if _is(v, tt.acc):
+            continue  # a path that passes the payload on unchanged: R10 decides whether any payload can take it
+        judged["transform"] += 1
         ops = _add_operands(v)
         xa = _xor_args(ctx, T, ops[1]) if len(ops) == 2 else None
         if xa is None:
@@ -2118,6 +2156,12 @@ def r6(ctx, T, R, tt, rt):
         if p.opaque:
             continue  # not fully modelled: reported as undecided above, nothing is concluded from it
         v = p.env.get(rt.acc)
+        if _is(v, rt.acc):
+            continue  # pass-through path: R10
+        adm = _admitted_lengths(p, len(rt.pre.fnodes), rt.acc, _ARG)
+        if not isinstance(adm, str) and adm[1] is not None and adm[1] <= 4 and (_cv(v) == b"" or (_tail_of(v, rt.acc) or 0) >= 4):
+            continue  # the path is taken only by blobs of at most the 4 key bytes and yields the empty payload: xor(b"", key) == b""
+        judged["recover"] += 1
         xa = _xor_args(ctx, R, v)
         if xa is None:
             unknown.append(f"recover computes {src(v)}: not xor(tail, head)")
@@ -2147,12 +2191,196 @@ def r6(ctx, T, R, tt, rt):
             problems.append(f"recover takes the key from the first {hi} bytes but the data from offset {lo}")
         elif lo != 4:
             problems.append(f"recover splits the message at {lo} (the wire format has exactly 4 key bytes)")
+    unknown.extend(f"no path of {side} mask computes a masked value" for side, n in judged.items() if not n and not problems)
     if problems:
         ctx.ob("R6", "AGREE", T, "mask", False, "; ".join(sorted(set(problems + unknown))))
     elif unknown:
         ctx.undecided("R6", "AGREE", T, "mask", "; ".join(sorted(set(unknown))))
     else:
         ctx.ob("R6", "AGREE", T, "mask", True, f"transform prepends a {size}-byte key and XORs the payload with it; recover splits at {split} and XORs tail with head")
+
+
+# ---------------------------------------------------------------------------------------------------------------- R10
+# Admitted payload lengths of a path: an integer interval [lo, hi] (hi None = unbounded) minus finitely many single points.
+_CMPTXT = {ast.Lt: "<", ast.LtE: "<=", ast.Gt: ">", ast.GtE: ">=", ast.Eq: "==", ast.NotEq: "!="}
+_CMPNEG = {"<": ">=", "<=": ">", ">": "<=", ">=": "<", "==": "!=", "!=": "=="}
+_CMPFLIP = {"<": ">", "<=": ">=", ">": "<", ">=": "<=", "==": "==", "!=": "!="}
+
+
+def _tail_of(e: Optional[ast.AST], acc: str) -> Optional[int]:
+    """k such that len(e) == max(len(acc) - k, 0): the accumulator itself (k = 0) or its tail `acc[k:]`, k a constant >= 0."""
+    if e is None:
+        return None
+    if _is(e, acc):
+        return 0
+    e = strip_cast(e)
+    if isinstance(e, ast.Subscript) and isinstance(e.slice, ast.Slice) and _is(e.value, acc) and e.slice.step is None \
+            and (e.slice.upper is None or (isinstance(e.slice.upper, ast.Constant) and e.slice.upper.value is None)):
+        k = 0 if e.slice.lower is None else _cv(e.slice.lower)
+        if isinstance(k, int) and not isinstance(k, bool) and k >= 0:
+            return k
+    return None
+
+
+def _len_constraints(e: ast.AST, truth: bool, acc: str):
+    """One path fact as constraints on L = len(acc) (device 4, interval domain): a list of ("iv", lo, hi) / ("hole", c),
+    [] when the fact says nothing about lengths, None when it talks about the accumulator in a way that is not translated.
+    Recognised: truthiness of acc / acc[k:] (non-empty <=> length > 0), comparisons of acc / acc[k:] with a bytes constant,
+    comparisons and truthiness of integer expressions that are linear in ONE len(acc) / len(acc[k:]) (polynomial normal form)."""
+    if not _mentions(e, acc):
+        return []
+    k = _tail_of(e, acc)
+    if k is not None:
+        return _x_constraint(k, ">" if truth else "<=", 0)
+    poly = op = None
+    if isinstance(e, ast.Compare) and len(e.ops) == 1 and type(e.ops[0]) in _CMPTXT:
+        l, r, op = e.left, e.comparators[0], _CMPTXT[type(e.ops[0])]
+        for a, b in ((l, r), (r, l)):
+            kb, c = _tail_of(a, acc), _cv(b)
+            if kb is not None and isinstance(c, (bytes, bytearray)) and op in ("==", "!="):
+                if (op == "==") == truth:
+                    return _x_constraint(kb, "==", len(c))  # equal byte strings have equal lengths
+                return _x_constraint(kb, ">", 0) if len(c) == 0 else []  # differing from one non-empty value excludes no length
+        pl, pr = _len_poly(l, acc), _len_poly(r, acc)
+        if pl is not None and pr is not None:
+            poly = pl - pr
+    elif isinstance(e, (ast.Call, ast.BinOp)):
+        poly, op = _len_poly(e, acc), "!="  # an int is true iff it is not 0
+    if poly is None:
+        return None
+    if not truth:
+        op = _CMPNEG[op]
+    atoms = sorted(poly.atoms())
+    if len(atoms) != 1 or not atoms[0].startswith("%T") or set(poly.terms) - {(atoms[0],), ()}:
+        return None
+    a, b = poly.terms[(atoms[0],)], poly.terms.get((), 0)
+    if a < 0:
+        op = _CMPFLIP[op]
+    return _x_constraint(int(atoms[0][2:]), op, -b / a)
+
+
+def _len_poly(e: ast.AST, acc: str):
+    def sub(n):
+        if isinstance(n, ast.Call) and dotted(n.func) == "len" and len(n.args) == 1 and not n.keywords:
+            k = _tail_of(n.args[0], acc)
+            if k is not None:
+                return SymPoly.atom(f"%T{k}")
+        return None
+
+    return sympoly(e, sub)
+
+
+def _x_constraint(k: int, op: str, c):
+    """X op c for X = max(L - k, 0), c rational, as constraints on the integer L >= 0."""
+    fl, ce = math.floor(c), math.ceil(c)
+    if op == "!=":
+        if fl != ce or c < 0:
+            return []
+        return [("iv", k + 1, None)] if c == 0 else [("hole", k + int(c))]
+    if op == "==":
+        if fl != ce:
+            return [("iv", 1, 0)]
+        x1 = x2 = int(c)
+    elif op == "<":
+        x1, x2 = 0, ce - 1
+    elif op == "<=":
+        x1, x2 = 0, fl
+    elif op == ">":
+        x1, x2 = fl + 1, None
+    else:
+        x1, x2 = ce, None
+    x1 = max(x1, 0)  # X >= 0 always
+    if x2 is not None and x2 < x1:
+        return [("iv", 1, 0)]  # empty
+    return [("iv", 0 if x1 == 0 else k + x1, None if x2 is None else k + x2)]  # X == 0 <=> L <= k
+
+
+def _admitted_lengths(p: _Path, skip: int, acc: str, arg: str):
+    """(lo, hi, holes) of the lengths of the iteration's initial payload the facts of this path admit, or a str saying which
+    fact could not be translated.  Only facts recorded during the iteration are used (the first `skip` belong to the prelude)."""
+    lo, hi, holes = 0, None, set()
+    for e, truth in p.fnodes[skip:]:
+        cs = _len_constraints(e, truth, acc)
+        if cs is None:
+            return f"the test {src(e)} on the payload is not a length condition this rule translates"
+        if not cs and _mentions(e, arg):
+            return f"the path depends on the step argument ({src(e)})"
+        for c in cs:
+            if c[0] == "hole":
+                holes.add(c[1])
+            else:
+                lo = max(lo, c[1])
+                hi = c[2] if hi is None else hi if c[2] is None else min(hi, c[2])
+    return lo, hi, holes
+
+
+def _admits(adm, d: int, witnesses: Tuple[int, ...] = ()) -> Optional[bool]:
+    """Does the admitted set contain a length >= d?  With `witnesses` (decoders: not every length is a valid encoding) a bounded
+    non-empty set counts only if it contains one of those lengths (None = cannot tell); an unbounded one always does."""
+    lo, hi, holes = adm
+    lo = max(lo, d)
+    if hi is None:
+        return True  # a ray minus finitely many points
+    if hi < lo or (hi - lo + 1) <= len({h for h in holes if lo <= h <= hi}):
+        return False
+    if not witnesses:
+        return True
+    return True if any(lo <= w <= hi and w not in holes for w in witnesses) else None
+
+
+def _fmt_lengths(adm) -> str:
+    lo, hi, holes = adm
+    s = f"len >= {lo}" if hi is None else f"{lo} <= len <= {hi}"
+    return s + (f", len not in {sorted(holes)}" if holes else "")
+
+
+# (domain start d, witness lengths) per side and step kind: the payload lengths on which a pass-through is wrong.
+#   encoder codecs: every non-empty payload (len(out) = 4*ceil(L/3) resp. 2L > L for L >= 1);   encoder mask: every payload (len(out) = L + 4)
+#   decoder mask:   every blob with the 4 key bytes (len(out) = L - 4);   decoder codecs: every non-empty valid encoding (len(out) < L) - the
+#   lengths of valid encodings are unbounded (all multiples of 4) and 2 and 4 characters are valid for all four codecs (netbios: 1 / 2 payload
+#   bytes; base64 with the padding stripped: 1 / 3 payload bytes)
+def _passthrough_domain(side: str, step: str) -> Tuple[int, Tuple[int, ...]]:
+    if step == "mask":
+        return (0, ()) if side == "transform" else (4, ())
+    return (1, ()) if side == "transform" else (1, (2, 4))
+
+
+def r10(ctx, T, R, tt, rt, tval, rval):
+    """No pass-through: a length-changing encoder / decoder step must rewrite the payload on every path a payload of its domain can take."""
+    for step in tables.INVERSE_PAIRS:
+        for side, f, s, arg in (("transform", T, tt, tval), ("recover", R, rt, rval)):
+            ps = _normal(s.paths(step))
+            if not ps:
+                continue  # not handled: R1
+            text = f"{step} has no pass-through path"
+            d, wit = _passthrough_domain(side, step)
+            what = {0: "every payload", 1: "every non-empty payload" if side == "transform" else "every non-empty encoded payload", 4: "every blob of at least the 4 key bytes"}[d]
+            skip = len(s.pre.fnodes)
+            bad, unk, ok = [], [], []
+            for p in ps:
+                if p.opaque:
+                    continue
+                if not _is(p.env.get(s.acc), s.acc):
+                    continue
+                adm = _admitted_lengths(p, skip, s.acc, arg)
+                if isinstance(adm, str):
+                    unk.append(adm)
+                    continue
+                t = _admits(adm, d, wit)
+                conds = sorted({("" if tr else "not ") + src(e) for e, tr in p.fnodes[skip:] if _mentions(e, s.acc)}) or ["no condition on the payload"]
+                if t is True:
+                    bad.append(f"the payload is passed on unchanged when {' and '.join(conds)} (payload lengths admitted: {_fmt_lengths(adm)})")
+                elif t is None:
+                    unk.append(f"the payload is passed on unchanged when {' and '.join(conds)}: only boundedly many lengths ({_fmt_lengths(adm)}), validity as an encoding not decided")
+                else:
+                    ok.append(f"kept as is only when {' and '.join(conds)}")
+            if bad:
+                ctx.ob("R10", "ABS", f, text, False, "; ".join(sorted(set(bad + unk))) + f" - {side} {step} changes the length of {what}, so the unchanged payload is not the "
+                       f"{'encoded' if side == 'transform' else 'decoded'} one")
+            elif unk or _opaque(ps):
+                ctx.undecided("R10", "ABS", f, text, "; ".join(sorted(set(unk))) or f"not modelled: {_opaque(ps)}")
+            else:
+                ctx.ob("R10", "ABS", f, text, True, f"every path that {what} can take through {side} {step} rewrites the payload" + (f" ({'; '.join(sorted(set(ok)))})" if ok else ""))
 
 
 # ---------------------------------------------------------------------------------------------------------------- R7
